@@ -53,6 +53,10 @@ fn main() {
 	let mut rep = Report::new();
 	match prop.as_str() {
 		"C01" => props::c01::run(&ctx, &mut rep),
+		"C02" => props::c02::run(&ctx, &mut rep),
+		"C03" => props::c03::run(&ctx, &mut rep),
+		"C08" => props::c08::run(&ctx, &mut rep),
+		"C07" => props::c07::run(&ctx, &mut rep),
 		"C15" => props::c15::run(&ctx, &mut rep),
 		"C19" => props::c19::run(&ctx, &mut rep),
 		_ => {
